@@ -65,7 +65,9 @@ def _hook(v, val):
 PURE_CALLS = ('datetime.timedelta', 'datetime.datetime', 'calendar.timegm',
               'iso8601.parse_date', 'zoneinfo.ZoneInfo')
 PURE_METHODS = ('utcoffset', 'replace', 'total_seconds', 'timetuple',
-                'tzname', 'get', 'isoformat')
+                'tzname', 'get', 'isoformat', 'astimezone', 'utctimetuple',
+                'timestamp', 'dst', 'date', 'time', 'timetz', 'toordinal',
+                'weekday', 'fromisoformat', 'strftime')
 
 
 def _setup(extra=None, stub_now=True):
@@ -505,9 +507,40 @@ def _marshal(ctx):
             rep.undecided('R12.4', what, 'inexact: %s' % notes)
             return
     import iso8601
+    import os
+    import time
     bad = None
     n = 0
     samples = []
+    # the local time zone of the process is part of the environment: the
+    # extracted terms are evaluated under two settings of it
+    saved_tz = os.environ.get('TZ')
+    try:
+        for tzname in ('UTC', 'America/New_York'):
+            os.environ['TZ'] = tzname
+            time.tzset()
+            bad, n = _marshal_grid(rep, out_m, out_u, now, tyme, iso8601,
+                                   samples, bad, n, tzname)
+            if bad == 'undecided':
+                return
+    finally:
+        if saved_tz is None:
+            os.environ.pop('TZ', None)
+        else:
+            os.environ['TZ'] = saved_tz
+        time.tzset()
+    for s_ in samples:
+        rep.case(s_, ('marshal', str(s_)))
+    rep.evaluations += n
+    rep.check('R12.4', 'unmarshall_time(marshall_now(x))', bad is None,
+              'round trip over %d (datetime, second, microsecond, local '
+              'zone) cases incl. leap seconds%s' % (
+                  n, '' if bad is None else ': for %s %s' % bad),
+              case=str(bad[0]) if bad else None)
+
+
+def _marshal_grid(rep, out_m, out_u, now, tyme, iso8601, samples, bad, n,
+                  tzname):
     for base in (dt.datetime(2030, 5, 17, 23, 59, 59, 999999),
                  dt.datetime(1999, 12, 31, 0, 0, 0, 1),
                  dt.datetime(2024, 2, 29, 12, 30, 15, 0)):
@@ -537,18 +570,12 @@ def _marshal(ctx):
                             uv[1].replace(tzinfo=None) != \
                             want.replace(tzinfo=None):
                         bad = bad or (payload, 'unmarshall_time yields %s, '
-                                      'required %s' % (uv[1], want))
+                                      'required %s (process time zone %s)' % (
+                                          uv[1], want, tzname))
             except CannotEval as e:
                 rep.undecided('R12.4', 'marshal round trip', str(e))
-                return
-    for s_ in samples:
-        rep.case(s_, ('marshal', str(s_)))
-    rep.evaluations += n
-    rep.check('R12.4', 'unmarshall_time(marshall_now(x))', bad is None,
-              'round trip over %d (datetime, second, microsecond) cases '
-              'incl. leap seconds%s' % (n, '' if bad is None else
-                                        ': for %s %s' % bad),
-              case=str(bad[0]) if bad else None)
+                return 'undecided', n
+    return bad, n
 
 
 def _fixture(ctx):
